@@ -82,6 +82,10 @@ CLAIMED = {
          'every emitted token (_c, _wide, _cnl, _cnl2; bases 2/8/10/16; chunk-boundary lengths; separators incl. inside the fraction; negated) must denote exactly its Python meaning, every boundary constant through make_elastic_integer / make_elastic_scaled_integer / make_scaled_integer / make_static_integer / make_static_number / CTAD must be held exactly with the promised digit count and exponent, and cnl::_impl::parse<T> must agree with GMP on generated well-formed tokens; a token that stops compiling is a violation',
          'four listed known findings (two of them token classes that do not compile on the pinned tree and are excluded by construction in the emitter, with compile witnesses); tokens differ per VERIF_SEED; Clang 14 has no CTAD for alias templates, so CTAD is exercised under GCC only',
          'DESIGN.md section 5 C15'),
+ 'C11': ('generated programs: a seeded emitter writes typed expression chains over static_number / static_integer leaves (plus fixed chains for multi-word storage and for the listed findings); rapidcheck draws leaf values from the declared range; each node is compared with an exact GMP replay of the chain',
+         'node by node: exact value from exact children, the rounded rep quotient for /, the mode-rounded value at the destination resolution for narrowing construction; the CNL value must equal it, or the chain\'s overflow tag must signal (saturated: the bound on the side where the rounded result leaves the declared digits, and the chain continues from the bound; throwing / trapping: exception / abort, and evaluation stops there). A loud signal for a representable result is not counted as silently wrong',
+         'four listed known findings inherited from the layers (C05 floor shift, C08 division bias, C09 conversion bias, shift by >= digits); Narrowest = long does not compile on the pinned tree and is not generated; chains differ per VERIF_SEED except the fixed ones',
+         'DESIGN.md section 5 C11'),
 }
 
 def main():
@@ -117,6 +121,6 @@ def main():
     json.dump(m, open(os.path.join(ROOT, 'MANIFEST.json'), 'w'), indent=1)
     print('MANIFEST.json: %d checks, %d not_applicable' % (len(checks), len(na)))
 
-NA = {}
+NA = {}  # every listed property is claimed; nothing is not applicable to this technique
 if __name__ == '__main__':
     main()
